@@ -1,6 +1,6 @@
 """C11 WARP envelopes cross the socket unchanged and reach only their addressee."""
 from mirlib import AnchorMissing, describe_call, describe_operand, describe_place, describe_rvalue, dom_guards, guards, _suffix_match
-from rules.common import named_argument_rule, aggregates, callers_by_name, owner_def, panic_sites, where
+from rules.common import ty_of, named_argument_rule, aggregates, callers_by_name, owner_def, panic_sites, where
 
 META = {
     "explanation": (
@@ -192,7 +192,9 @@ def run(ctx):
         for cb in cls:
             if cb.meta.get("coroutine"):
                 continue
-            tests = [c for c in cb.calls if c.name in ("contains", "peek", "binary_search", "any") and c.args and "failed" in describe_operand(cb, c.args[0])]
+            # (the collection of failed positions is recognised by what it holds - positions, usize - not by what it is called)
+            tests = [c for c in cb.calls if c.name in ("contains", "peek", "binary_search", "any") and c.args and
+                     ("failed" in describe_operand(cb, c.args[0]) or (len(c.args) > 1 and ty_of(cb, c.args[1]) == "usize"))]
             if tests:
                 dec.append((cb, tests))
         if not dec:
